@@ -37,7 +37,7 @@ CUSTOMS = [None, {}, {':--x': 'p'}, {':--x': 'p', ':--y': ':--x > b'}, {':--y': 
            {':--x': 'p', ':--y': ':--x > b', ':--z': ':is(:--y, :--x)'}]
 
 
-def plan(tier, seed):
+def _plan0(tier, seed):
     units = []
     for i in range(48 if tier == 'quick' else 480):
         units.append({'kind': 'values', 'seed': seed * 3571 + i, 'n': 220 if tier == 'quick' else 600})
@@ -45,6 +45,17 @@ def plan(tier, seed):
         units.append({'kind': 'xproc', 'seed': seed * 3571 + 90000 + i, 'n': 40 if tier == 'quick' else 150})
     for i in range(16 if tier == 'quick' else 160):
         units.append({'kind': 'history', 'seed': seed * 3571 + 50000 + i, 'n': 8 if tier == 'quick' else 30})
+    return units
+
+
+def plan(tier, seed):
+    """... plus the shared 'faultcompile' units: a compile with a custom-selector table is cut short (warning turned into an error,
+    deep caller stack, asynchronous exception at a random line inside the library, DEBUG output stream that breaks, syntax error in
+    a definition); the next ordinary compile with equal arguments must have the outcome of a fresh parse (vlib/faultcompile.py)."""
+    units = _plan0(tier, seed)
+    fthemes = ['generic', 'text', 'diag']
+    units += [{'kind': 'faultcompile', 'theme': fthemes[i % len(fthemes)], 'seed': seed * 32749 + i, 'n': 150 if tier == 'quick' else 500}
+              for i in range(12 if tier == 'quick' else 120)]
     return units
 
 
